@@ -188,6 +188,9 @@ def check_case(case):
     for run in case['runs']:
         n = L + K + 1 + run.get('extra', 2)
         data = make_data(names, n, run.get('bases') or [[1.0, 2.0, 0.5, 4.0]], positive=not dyadic)
+        for nm, val in (run.get('const') or {}).items():
+            if nm in data:
+                data[nm] = np.full(n, float(val))
         p = Py(range(n), **{k: v.copy() for k, v in data.items()})
         f = F(range(n), **{k: v.copy() for k, v in data.items()})
         entry = run['entry']
@@ -408,6 +411,15 @@ def fixed_family():
     progs.append(([['assign', V('A'), V('X')], ['assign', V('B'), ['bin', '+', ['bin', '*', ['num', '0.5'], V('B')], V('A')]]],
                   [{'entry': 'solve_t', 'tpos': 0, 'opts': {'tol': 2.0 ** -20, 'max_iter': 60}},
                    {'entry': 'solve', 'opts': {'tol': 2.0 ** -20, 'max_iter': 60}}]))
+    # magnitudes at which a single-precision intermediate would flush to zero / overflow / round across the tolerance
+    progs.append(([['assign', V('X'), ['bin', '+', ['bin', '*', V('a', None, 'p'), V('X')], V('Z')]]],
+                  [{'entry': 'solve_t', 'tpos': 0, 'const': {'a': 0.5, 'Z': 1e-50, 'X': 0.0}, 'opts': {'tol': 1e-60, 'max_iter': 60, 'failures': 'ignore'}},
+                   {'entry': 'solve', 'const': {'a': 0.5, 'Z': 1e-50, 'X': 0.0}, 'opts': {'tol': 1e-60, 'max_iter': 60, 'failures': 'ignore'}},
+                   {'entry': 'solve_t', 'tpos': 0, 'const': {'a': 0.0, 'Z': 1e40, 'X': 0.0}, 'opts': {'tol': 1e41, 'max_iter': 3, 'failures': 'ignore'}},
+                   {'entry': 'solve_t', 'tpos': 0, 'const': {'a': 0.0, 'Z': 1e-10 * (1 - 1e-9), 'X': 0.0}, 'opts': {'max_iter': 1, 'failures': 'ignore'}},
+                   {'entry': 'solve', 'const': {'a': 0.0, 'Z': 1e-10 * (1 - 1e-9), 'X': 0.0}, 'opts': {'max_iter': 1, 'failures': 'ignore'}},
+                   {'entry': 'solve_t', 'tpos': 0, 'const': {'a': 0.0, 'Z': 0.5 * (1 - 2.0 ** -40), 'X': 0.0}, 'opts': {'tol': 0.5, 'max_iter': 1, 'failures': 'ignore'}},
+                   {'entry': 'solve_t', 'tpos': 0, 'const': {'a': 0.5, 'Z': 1e300, 'X': 0.0}, 'opts': {'tol': 1e290, 'max_iter': 60, 'failures': 'ignore'}}]))
     # the check list is edited between two solves: only the fast variable is tested afterwards / only the slow one
     progs.append(([['assign', V('A'), ['bin', '*', ['num', '0.5'], V('X')]],
                    ['assign', V('B'), ['bin', '+', ['bin', '*', ['num', '0.5'], V('B')], V('A')]]],
